@@ -93,11 +93,23 @@ def apply(schema: MappingSchema, op, colspecs, dialect):
             _, name, ci = op
             schema.add_table(name, copy.deepcopy(colspecs[ci]))
             return None
+        if op[0] == "add_nf":
+            _, name, ci = op
+            schema.add_table(name, copy.deepcopy(colspecs[ci]), normalize=False)
+            return None
         _, kind, name = op
         if kind == "names":
             return norm_value(schema.column_names(name))
         if kind == "names_tbl":
             return norm_value(schema.column_names(exp.to_table(name, dialect=dialect or None)))
+        if kind == "names_nf":
+            return norm_value(schema.column_names(name, normalize=False))
+        if kind == "has_Foo":
+            return schema.has_column(name, "Foo")
+        if kind == "has_Foo_nf":
+            return schema.has_column(name, "Foo", normalize=False)
+        if kind == "type_Foo":
+            return norm_value(schema.get_column_type(name, "Foo"))
         if kind.startswith("type_"):
             return norm_value(schema.get_column_type(name, kind[-1]))
         if kind.startswith("has_"):
@@ -146,7 +158,7 @@ def run_history(cfg, hist, colspecs):
 def judge(cfg, hist, colspecs, memo):
     """hist ends with a lookup. Returns (real_obs, ref1_obs, ref2_obs, real_schema)."""
     real, obs = run_history(cfg, hist, colspecs)
-    adds = tuple(op for op in hist[:-1] if op[0] == "add")
+    adds = tuple(op for op in hist[:-1] if op[0] in ("add", "add_nf"))
     key = (adds, hist[-1])
     if key not in memo:
         r1, o1 = run_history(cfg, adds + (hist[-1],), colspecs)
@@ -196,11 +208,18 @@ def configs(quick: bool):
 def alphabet(cfg, quick=None):
     dialect, depth = cfg[0], cfg[1]
     small = cfg[5] == "small"
-    colspecs = COLSPECS_QUICK if small else COLSPECS_FULL
-    kinds = KINDS_QUICK if small else KINDS_FULL
+    colspecs = list(COLSPECS_QUICK if small else COLSPECS_FULL)
+    kinds = list(KINDS_QUICK if small else KINDS_FULL)
     adds, looks = universe(depth, dialect, small)
     ops = [("add", n, ci) for n in adds for ci in range(len(colspecs))]
     ops += [("look", k, n) for n in looks for k in kinds]
+    if depth == 1:
+        # per-call normalize=False (the schema-level setting stays) with a case-bearing column name: the
+        # name / table normalisation caches are keyed by the normalize flag
+        colspecs.append({"Foo": "INT"})
+        ci = len(colspecs) - 1
+        ops += [("add", "t", ci), ("add", "T", ci), ("add_nf", "t", ci), ("add_nf", "T", ci)]
+        ops += [("look", k, n) for n in ("t", "T") for k in ("has_Foo", "has_Foo_nf", "type_Foo", "names_nf")]
     return ops, colspecs
 
 
@@ -224,11 +243,12 @@ def explore(cfg, first_ops, ops, colspecs, max_len):
                 stats["judged"] += 1
                 stats["outcomes"].add(hash((obs,)) & 0xFFFFFFFF)
                 lookups_before = any(op[0] == "look" for op in hist[:-1])
+                is_add = lambda o: o[0] in ("add", "add_nf")
                 if lookups_before:
                     # non-trivial: an earlier lookup precedes an add that changes this answer
                     for i, op in enumerate(hist[:-1]):
-                        if op[0] == "add" and any(p[0] == "look" for p in hist[:i]):
-                            before = tuple(p for p in hist[:i] if p[0] == "add")
+                        if is_add(op) and any(p[0] == "look" for p in hist[:i]):
+                            before = tuple(p for p in hist[:i] if is_add(p))
                             kb = (before, last)
                             if kb not in memo:
                                 _, ob = run_history(cfg, before + (last,), colspecs)
@@ -242,7 +262,7 @@ def explore(cfg, first_ops, ops, colspecs, max_len):
                     sig = f"C18|construct|{cfg[0] or 'base'}|{shape(hist, only_adds=True)}|{show(o1)}!={show(o2)}"
                     stats["violations"].append(
                         {"signature": sig, "what": what,
-                         "case": {"cfg": cfg_json(cfg), "history": [list(op) for op in hist if op[0] == "add" or op is last],
+                         "case": {"cfg": cfg_json(cfg), "history": [list(op) for op in hist if op[0] in ("add", "add_nf") or op is last],
                                   "colspecs": colspecs, "add_only": show(o1), "from_mapping": show(o2), "kind": "construct"}})
                 elif obs != o1:
                     what = (f"after {describe(hist)} the lookup answers {show(obs)}; a fresh schema with the same "
@@ -294,9 +314,9 @@ def shape(hist, only_adds=False):
     target = last[2]
     parts = []
     for op in hist[:-1]:
-        if op[0] == "add":
+        if op[0] in ("add", "add_nf"):
             rel = name_relation(op[1], target)
-            parts.append(f"add[{rel},{'cols' if op[2] else 'nocols'}]")
+            parts.append(f"{op[0]}[{rel},{'cols' if op[2] else 'nocols'}]")
         elif not only_adds:
             rel = name_relation(op[2], target)
             parts.append(f"look[{rel}]")
@@ -324,8 +344,8 @@ def name_relation(a: str, b: str) -> str:
 def describe(hist):
     out = []
     for op in hist:
-        if op[0] == "add":
-            out.append(f"add_table({op[1]!r}, colspec#{op[2]})")
+        if op[0] in ("add", "add_nf"):
+            out.append(f"add_table({op[1]!r}, colspec#{op[2]}{', normalize=False' if op[0] == 'add_nf' else ''})")
         else:
             out.append(f"{op[1]}({op[2]!r})")
     return "; ".join(out)
